@@ -137,6 +137,27 @@ def rule_store(ctx):
                             kinds.add('?')
             kinds_of(0)
             good = kinds == {'Err'}
+            if not good:
+                # decide it by evaluation instead of shape: with the graph answering Err(CycleDetected), does add_dependency return an Err?
+                # (covers `.map(..).map_err(|e| match e { .. })`, a match on the error behind let-else, helper shims, ...)
+                try:
+                    import absint
+                    cyc = ('res', 'Err', ('adt', 'pie_graph::Error', 'CycleDetected', (), next((v['idx'] for v in (F.adts.get('pie_graph::Error') or {}).get('variants', []) if v['name'] == 'CycleDetected'), 1)))
+
+                    def world(answer):
+                        def extern(call, argv):
+                            if call.qname == DAG + 'add_edge':
+                                return answer
+                            return None
+                        return extern
+                    args_ = [('atom', 'store'), ('atom', 'src'), ('atom', 'dst'), ('atom', 'dep')][:b.argc]
+                    r1 = absint.evaluate(F, b, args_, extern=world(cyc))
+                    r2 = absint.evaluate(F, b, args_, extern=world(('res', 'Ok', ('bool', True))))
+                    r3 = absint.evaluate(F, b, args_, extern=world(('res', 'Ok', ('bool', False))))
+                    if r1[0] == 'res' and r1[1] == 'Err' and r2[0] == 'res' and r2[1] == 'Ok' and r3[0] == 'res' and r3[1] == 'Ok':
+                        good, kinds = True, {'Err'}
+                except Exception:
+                    pass
             R.ob('STORE-add-cycle', b.path, good, 'a cycle reported by the graph is returned as an error' if good
                  else 'when the graph reports CycleDetected, add_dependency can return %s' % sorted(kinds), ctx.where(b, e.bb), props=('C07',))
     # ignored results of add_dependency: only resource edges (destination is a resource node => never a cycle)
@@ -444,6 +465,15 @@ def _rule_td_check(ctx, chk):
         good = ctx.base_call_bbs(ro) == {nx.bb}
         R.ob('TD-check-receiver', key + '#' + c.name, good, 'the consistency check is asked of the dependency under iteration' if good else 'check receiver: %s' % chk.describe_origins(ro),
              ctx.where(chk, c.bb), props=('C01', 'C09'))
+    # every verdict is branched on before the next dependency is looked at (directly, or through a flag it was folded into): a verdict that
+    # is only accumulated (`all_ok &= d.is_consistent(..)`) lets the validation run on after an inconsistent dependency
+    vedges = set(vg)
+    for c in vcalls:
+        seen_ = chk.reach(chk.xsucc(c.bb), avoid=ctx.both(inf, lambda n: n in vedges), stop=lambda n: n == nx.bb)
+        tested = nx.bb not in seen_
+        R.ob('TD-check-verdict-tested', key + '#' + c.name, tested, 'the verdict is branched on before the next dependency is validated' if tested
+             else 'the next dependency is validated without the verdict of this one having been branched on (validation does not stop at the first inconsistent dependency)',
+             ctx.where(chk, c.bb), props=('C01', 'C02', 'C20'))
     # negative verdict => no further iteration, no reuse (early exit; C01 C02 C18)
     nonnone = _nonnone_exit_blocks(chk)
     for e in sorted(neg):
